@@ -796,7 +796,7 @@ def divide(lhs, rhs, ctx):
     return {
         (NUMBER_TYPE, NUMBER_TYPE): lambda: 0
         if rhs == 0
-        else vyxalify(sympy.nsimplify(lhs / rhs)),
+        else vyxalify(sympy.sympify(lhs) / rhs),
         (NUMBER_TYPE, str): lambda: wrap(rhs, len(rhs) // lhs, ctx),
         (str, NUMBER_TYPE): lambda: wrap(lhs, len(lhs) // rhs, ctx),
         (str, str): lambda: lhs.split(rhs),
